@@ -120,5 +120,3 @@ func VerifC01PackDict(words [][]byte, recs [][]uint16, blkRecCount uint16) []byt
 	PackDictEnc(cw, blkRecCount)
 	return append([]byte{}, cw.cbuf.Slice(0, int(cw.cbufidx))...)
 }
-
-func VerifC01CardLimit() uint16 { return wipCardLimit }
